@@ -76,6 +76,13 @@ VARIANTS = {
 }
 
 
+# developer aid (tools/coverage.py): VERIF_COVERAGE=1 builds the plain variants with gcov instrumentation, into the
+# scratch root named by VERIF_SCRATCH, so that the line coverage the checks reach in the library can be measured
+if os.environ.get('VERIF_COVERAGE') == '1':
+    for _k in ('plain', 'bb'):
+        VARIANTS[_k] = (VARIANTS[_k][0].replace('-O1', '-O0') + ' --coverage', VARIANTS[_k][1])
+
+
 def _lock(name):
     os.makedirs(SCRATCH_ROOT, exist_ok=True)
     fh = open(os.path.join(SCRATCH_ROOT, name + '.lock'), 'w')
@@ -142,14 +149,15 @@ def build_impl(variant='plain', keep=2):
         logf = os.path.join(dest, 'verif_build.log')
         with open(logf, 'w') as lf:
             if reconf:
-                rc = subprocess.call('./configure %s CFLAGS="%s" > /dev/null' % (reconf, cflags), shell=True, cwd=dest,
+                rc = subprocess.call('./configure %s CFLAGS="%s" %s > /dev/null' % (reconf, cflags, 'LDFLAGS=--coverage' if '--coverage' in cflags else ''), shell=True, cwd=dest,
                                      stdout=lf, stderr=subprocess.STDOUT)
                 if rc != 0:
                     raise BuildFailed('configure failed, see ' + logf)
                 # fresh configure: no stale objects were copied, build everything
                 rc = subprocess.call(['make', '-s', '-C', 'src', '-j%d' % NPROC], cwd=dest, stdout=lf, stderr=subprocess.STDOUT)
             else:
-                rc = subprocess.call(['make', '-s', '-C', 'src', '-j%d' % NPROC, 'CFLAGS=' + cflags],
+                rc = subprocess.call(['make', '-s', '-C', 'src', '-j%d' % NPROC, 'CFLAGS=' + cflags] +
+                                     (['LDFLAGS=--coverage'] if '--coverage' in cflags else []),
                                      cwd=dest, stdout=lf, stderr=subprocess.STDOUT)
         if rc != 0 or not os.path.exists(os.path.join(dest, 'src/libs/.libs/libpnetcdf.a')):
             tail = open(logf).read()[-3000:]
@@ -175,7 +183,11 @@ def cc(tree, srcs, out, extra=(), mpi=True, asan=False):
     cmd = ['mpicc' if mpi else 'gcc', '-g', '-O1', '-w']
     if asan:
         cmd += ['-fsanitize=address,undefined', '-fno-omit-frame-pointer']
+    if os.environ.get('VERIF_COVERAGE') == '1' and mpi:
+        cmd += ['-lgcov']
     cmd += list(extra) + list(srcs) + ['-o', out] + (libflags(tree) if mpi else ['-lm'])
+    if os.environ.get('VERIF_COVERAGE') == '1' and mpi:
+        cmd += ['-lgcov']
     p = subprocess.run(cmd, stdout=subprocess.PIPE, stderr=subprocess.STDOUT, text=True)
     if p.returncode != 0:
         raise BuildFailed('harness compile failed: %s\n%s' % (' '.join(cmd), p.stdout[-3000:]))
